@@ -39,7 +39,7 @@ UNIT = {
     'text_subst': [
         # one-line constructors (terminal.h, rangeval.h: each calls exactly the setter named here) written as default construction + setter
         (r'terminal t = terminal\(bool\(T\)\);', 'terminal t; t.setBoolean(bool(T));', FC),
-        (r'terminal t = terminal\(long\(T\)\);', 'terminal t; t.setInteger(long(T));', FC),
+        (r'terminal t = terminal\((int|long)\(T\)\);', r'terminal t; t.setInteger(\1(T));', FC),      # whatever integer conversion the source applies is kept (seed C16c narrows here)
         (r'terminal t = terminal\(double\(T\)\);', 'terminal t; t.setReal(double(T));', FC),
         (r'terminal t\(the_terminal_type, p\);', 'terminal t; t.setFromHandle(the_terminal_type, p);', FC),
         (r'T = rangeval\(t\.getBoolean\(\)\);', 'T.setBoolean(t.getBoolean());', FC),
